@@ -26,8 +26,22 @@ def ex_lbfh(repo):
     return common.status_code(repo) + [p.item(r'^pub\(crate\) struct LatestBlockFilterHashes', attrs=True), p.item(r'^impl LatestBlockFilterHashes \{')]
 
 
+def ex_bfhashes(repo):
+    s = Source(repo, BFHP)
+    e = s.item(r'^    pub fn execute\(self\) -> Status'); e.prefix = "impl<'a> BlockFilterHashesProcess<'a> {\n"; e.suffix = '\n}'
+    return common.status_code(repo) + [e]
+
+
 def obligations():
     return [
+        KModelOb('O6.4-cached-hashes', 'bfhashes', 'hashes_q', 'BlockFilterHashesProcess::execute (real text): the per-interval cache of filter hashes (supplied by ONE peer) is extended '
+                 'only by batches chained from the finalized check point / the cached hash of the previous block, never rewritten, and a COMPLETE interval '
+                 'ends with the finalized next check point - the only thing that pins a single peer hash chain to the quorum; latest hashes only above '
+                 'the finalized check point; no index / arithmetic panic', ex_bfhashes,
+                 '<=4 hashes per message (= one model interval), interval 4, final index <=2, arbitrary start / parent / hash bytes; unwind 8',
+                 cuts=CUTS + ['update_latest_block_filter_hashes -> stub (its text is unit lbfh)'], timeout=1500, mem_gb=12, tiers=('quick',), min_covers=2, weight=4),
+        KModelOb('O6.4-cached-hashes-t', 'bfhashes', 'hashes_t', 'as O6.4 with <=5 hashes per message (one more than an interval)', ex_bfhashes, '<=5 hashes',
+                 cuts=CUTS, timeout=3000, mem_gb=20, tiers=('thorough',), min_covers=2, weight=5),
         KModelOb('O6.1-filters', 'bfilters', 'filters_q', 'BlockFiltersProcess::execute (real text): the filtered height advances / a matched-block record '
                  'is written only for a proven peer, start = old+1, equal counts; accepted prefix = min(filters, agreed hashes); every accepted '
                  'filter hashes, chained from the true parent, to the agreed hash of its height; recorded hashes are the message hashes at the '
